@@ -368,8 +368,8 @@ func genTypeAddr(byDir map[string]*parsed) []*genFile {
 			dir, file, fn, prefix, guard, prefix, index)
 		t.errs = append(t.errs, tt.errs...)
 	}
-	look("internal/encoder", "compiler_norace.go", "CompileToGetCodeSet", "enc_norace")
-	look("internal/encoder", "compiler_race.go", "CompileToGetCodeSet", "enc_race")
+	look("internal/encoder", "compiler_norace.go", "compileToGetCodeSet", "enc_norace")
+	look("internal/encoder", "compiler_race.go", "compileToGetCodeSet", "enc_race")
 	look("internal/decoder", "compile_norace.go", "CompileToGetDecoder", "dec_norace")
 	look("internal/decoder", "compile_race.go", "CompileToGetDecoder", "dec_race")
 	alloc := func(dir, file, fn, slice, name string) {
